@@ -1147,6 +1147,7 @@ def k_sparse(ctx: Ctx):
 
     rng = ctx.rng
     saved = {k: (v, v.data.copy()) for k, v in sp._pauli_map.items()}
+    snap_mod = _module_sparse_snapshot(sp)  # every sparse object of the module, whatever its name
     reqs, reals = [], []
     try:
         for _ in range(ctx.n(120, 1500)):
@@ -1218,6 +1219,8 @@ def k_sparse(ctx: Ctx):
                     l = rand_label(rng, n, allow_id=False)
                     if n == 1 and rng.random() < 0.7:
                         l = ((0, rng.choice([1, 2, 3])),)
+                    if rng.random() < 0.2:
+                        l = ()  # the identity label: its one-qubit matrix is the un-kron'ed identity factor itself
                     fmt = rng.choice(["csc", "csc", "csc", "csr", "coo", "lil", "dia", "bsr"])
                     ops.append(f"g:{enc_label(l)}:{n}")
                     calls.append(f"r{len(handles)} = get_sparse_matrix({enc_label(l)}, {n}" + ("" if fmt == "csc" else f", '{fmt}'") + ")")
@@ -1228,7 +1231,7 @@ def k_sparse(ctx: Ctx):
                     a = np.asarray(h.toarray())
                     t = c04ref.pauli_matrix(l, n)
                     if a.shape != t.shape or np.abs(a - t).max() > 0:
-                        ctx.witness("sparse-history:result-depends-on-what-callers-did-with-earlier-results",
+                        ctx.witness(K_VALUE,
                                     "after callers changed matrices they had received in place, get_sparse_matrix returns a matrix that is "
                                     "not the Pauli matrix of the label (last call of the history)", {"kind": hinp["kind"], "calls": list(calls)},
                                     {"got": str(a.tolist())[:300], "want": str(t.tolist())[:300]})
@@ -1237,7 +1240,7 @@ def k_sparse(ctx: Ctx):
                 a = np.asarray(h.toarray())
                 t = c04ref.pauli_matrix(l, n)
                 if a.shape != t.shape or np.abs(a - kexp[idx] * t).max() > 0:
-                    ctx.witness("sparse-history:result-depends-on-what-callers-did-with-earlier-results",
+                    ctx.witness(K_VALUE,
                                 f"result r{idx} is not (the scalings applied to it) x (its Pauli matrix): results share storage with each other "
                                 "or with the module's table", {"kind": hinp["kind"], "calls": list(calls)},
                                 {"result": idx, "expected_factor": kexp[idx], "got": str(a.tolist())[:300]})
@@ -1258,9 +1261,11 @@ def k_sparse(ctx: Ctx):
             reqs.append("c04hist " + " ; ".join(ops))
             reals.append(real)
             sparse_reset(sp, saved)
+            _module_sparse_restore(snap_mod)
             ctx.count("sparse.history", "table-untouched" if clean else "table-changed")
     finally:
         sparse_reset(sp, saved)
+        _module_sparse_restore(snap_mod)
     resp = ctx.driver(reqs, entry=ENTRY)
     for rq, real, r in zip(reqs, reals, resp):
         ctx.traces += 1
@@ -1899,6 +1904,216 @@ def sparse_format_eval(ctx: Ctx, rng, inp):
     ctx.case(("sparse-format", json.dumps(inp["calls"])), nontrivial=len({c[2] for c in inp["calls"]}) > 1)
 
 
+# --- histories in which callers change exported matrices in place: value semantics of every export -----------------
+K_VALUE = "sparse-history:result-depends-on-what-callers-did-with-earlier-results"
+MUTATIONS = ["imul", "data-scale", "data-set", "setitem-existing", "setitem-new", "indices-reverse"]
+
+
+def _module_sparse_snapshot(sp):
+    """(object, private copy) of every scipy sparse matrix the module holds at top level or inside a top-level dict/list —
+    whatever its name — so that a corrupted table can be put back after a history (best effort)"""
+    import scipy.sparse as ss
+
+    out = []
+    try:
+        for v in list(vars(sp).values()):
+            cands = list(v.values()) if isinstance(v, dict) else (list(v) if isinstance(v, (list, tuple)) else [v])
+            for o in cands:
+                if ss.issparse(o) and not any(o is x for x, _ in out):
+                    out.append((o, o.copy()))
+    except Exception:  # noqa: BLE001
+        pass
+    return out
+
+
+def _module_sparse_restore(snap):
+    for obj, cp in snap:
+        for attr in ("data", "indices", "indptr", "row", "col", "offsets"):
+            a, b = getattr(obj, attr, None), getattr(cp, attr, None)
+            try:
+                if a is not None and b is not None and getattr(a, "shape", None) == getattr(b, "shape", None) and a.dtype == b.dtype and a.dtype.kind != "O":
+                    a[...] = b
+            except Exception:  # noqa: BLE001
+                pass
+
+
+def _mutate_in_place(rng, m, how):
+    """change a matrix the caller owns, in place; returns the text of what was done (falls back to `*=`)"""
+    import numpy as np
+
+    data = getattr(m, "data", None)
+    numeric = isinstance(data, np.ndarray) and data.dtype.kind in "cf" and data.size > 0
+    dense = np.asarray(m.toarray())
+    nzpos = [(int(a), int(b)) for a, b in zip(*np.nonzero(dense))]
+    zpos = [(int(a), int(b)) for a, b in zip(*np.nonzero(dense == 0))]
+    if how == "data-scale" and numeric:
+        k = rng.choice([2, -1, 3])
+        m.data *= k
+        return f".data *= {k}"
+    if how == "data-set" and numeric:
+        j = rng.randrange(data.size)
+        v = rng.choice([2.0, -3.0, 0.5j, 7.0])
+        m.data.flat[j] = v
+        return f".data.flat[{j}] = {v}"
+    if how == "setitem-existing" and nzpos and m.format in ("csc", "csr", "lil", "dok"):
+        a, b = rng.choice(nzpos)
+        v = rng.choice([2.0, -3.0, 0.5j, 7.0])
+        m[a, b] = v
+        return f"[{a}, {b}] = {v}"
+    if how == "setitem-new" and zpos and m.format in ("csc", "csr", "lil", "dok"):
+        a, b = rng.choice(zpos)
+        v = rng.choice([2.0, -3.0, 0.5j])
+        m[a, b] = v
+        return f"[{a}, {b}] = {v}"
+    if how == "indices-reverse" and m.format in ("csc", "csr") and getattr(m, "indices", None) is not None and m.indices.size > 1:
+        m.indices[:] = m.indices[::-1].copy()
+        return ".indices[:] = .indices[::-1]"
+    k = rng.choice([2, -1, 3, 4])
+    m *= k
+    return f" *= {k}"
+
+
+def sparse_value_history(ctx: Ctx, rng, steps, probe_n):
+    """steps: ["get", enc_est, narg, fmt] | ["mut", index of an earlier export, how].  After every mutation: every OTHER exported
+    matrix is unchanged, every earlier request exported again gives the true matrix, fresh labels / operators with identity
+    factors in several formats give the true matrix, and <psi|M|psi> through them is the oracle's value."""
+    import warnings
+
+    import numpy as np
+
+    import quri_parts.core.operator.sparse as sp
+    from quri_parts.core.operator import get_sparse_matrix
+
+    snap_mod = _module_sparse_snapshot(sp)
+    saved_map = _pm_save(sp)
+    calls, handles, snaps, reqs = [], [], [], []
+
+    def want_of(enc, narg):
+        terms = est_terms(dec_est(enc))
+        nn = narg if narg is not None else max(q + 1 for l, _ in terms for q, _ in l)
+        return c04ref.operator_matrix([(l, cplx(c)) for l, c in terms], nn), nn
+
+    def export(enc, narg, fmt):
+        ro = real_est(rng, dec_est(enc))
+        if fmt == "csc" and rng.random() < 0.5:
+            return get_sparse_matrix(ro, narg) if narg is not None else get_sparse_matrix(ro)
+        return get_sparse_matrix(ro, narg, fmt)
+
+    def fail(what, detail):
+        ctx.witness(K_VALUE, what, {"kind": "sparse-value-history", "calls": list(calls)}, detail)
+
+    def judge(enc, narg, fmt, text):
+        calls.append(text)
+        try:
+            m = export(enc, narg, fmt)
+            a = np.asarray(m.toarray())
+        except Exception as ex:  # noqa: BLE001
+            fail(f"get_sparse_matrix raises {exc_name(ex)} on a valid request after callers changed earlier results in place (last call)", str(ex)[:200])
+            return None
+        w, nn = want_of(enc, narg)
+        if a.shape != w.shape or np.abs(a - w).max() > 1e-12:
+            fail("get_sparse_matrix returns a matrix that is not the matrix of the operator after callers changed matrices they had "
+                 "received earlier in place (last call of the history)", {"got": str(a.tolist())[:300], "want": str(w.tolist())[:300]})
+            return m
+        psi = np.array([complex(rng.gauss(0, 1), rng.gauss(0, 1)) for _ in range(2**nn)])
+        got, wv = complex(np.vdot(psi, m @ psi)), complex(np.vdot(psi, w @ psi))
+        if abs(got - wv) > 1e-9 * (1 + abs(wv)):
+            fail("<psi|get_sparse_matrix(O)|psi> differs from the oracle (last call of the history)", {"got": str(got), "want": str(wv)})
+        return m
+
+    try:
+        with warnings.catch_warnings():
+            warnings.simplefilter("ignore")
+            for st in steps:
+                if st[0] == "get":
+                    _, enc, narg, fmt = st
+                    m = judge(enc, narg, fmt, f"r{len(handles)} = get_sparse_matrix({enc}, {narg}, '{fmt}')")
+                    if m is None:
+                        return
+                    handles.append(m)
+                    snaps.append(np.asarray(m.toarray()).copy())
+                    reqs.append((enc, narg, fmt))
+                    continue
+                _, i, how = st
+                if i >= len(handles):
+                    continue
+                try:
+                    txt = _mutate_in_place(rng, handles[i], how)
+                except Exception as ex:  # noqa: BLE001  (an operation this format does not offer: nothing was changed)
+                    calls.append(f"r{i}: {how} raised {exc_name(ex)}")
+                    continue
+                calls.append(f"r{i}{txt}" if txt.startswith((" ", ".", "[")) else f"r{i} {txt}")
+                ctx.count("sparse.mutation", how)
+                try:
+                    snaps[i] = np.asarray(handles[i].toarray()).copy()
+                except Exception:  # noqa: BLE001  (the caller broke his own matrix: his business)
+                    snaps[i] = None
+                # (1) every other export is unchanged
+                for j, (h, s0) in enumerate(zip(handles, snaps)):
+                    if j == i or s0 is None:
+                        continue
+                    try:
+                        aj = np.asarray(h.toarray())
+                        same = aj.shape == s0.shape and np.array_equal(aj, s0)
+                    except Exception:  # noqa: BLE001
+                        aj, same = None, False
+                    if not same:
+                        fail(f"changing result r{i} in place changed result r{j}: two exports share storage", {"r%d before" % j: str(s0.tolist())[:200], "after": str(None if aj is None else aj.tolist())[:200]})
+                        snaps[j] = None if aj is None else aj.copy()
+                # (2) everything exported before, exported again
+                for j, (enc, narg, fmt) in enumerate(reqs):
+                    judge(enc, narg, fmt, f"again request of r{j}: get_sparse_matrix({enc}, {narg}, '{fmt}')")
+                    calls.pop()
+                # (3) fresh requests with identity factors, in several formats
+                n = probe_n
+                probes = [("L-", 1, "csc"), ("L-", n, rng.choice(FORMATS)), (f"L{n - 1}.{rng.choice([1, 2, 3])}", n, rng.choice(FORMATS)),
+                          ("L0.3", n, "csc"), (f"O-:{rng.randint(1, 40)}/0;0.{rng.choice([1, 2, 3])}:16/0", n, rng.choice(FORMATS)),
+                          (f"O{n - 1}.1:-8/4", n, "csc"), (f"L0.{rng.choice([1, 2, 3])}", 1, rng.choice(FORMATS))]
+                for enc, narg, fmt in probes:
+                    judge(enc, narg, fmt, f"then get_sparse_matrix({enc}, {narg}, '{fmt}')")
+                    calls.pop()
+    finally:
+        _module_sparse_restore(snap_mod)
+        _pm_restore(sp, saved_map)
+    ctx.case(("sparse-value-history", json.dumps(steps)), nontrivial=any(s[0] == "mut" for s in steps))
+
+
+def k_sparse_value_hist(ctx: Ctx):
+    rng = ctx.rng
+    # systematic: one export of each kind (identity / Pauli label, identity / one-term / mixed Operator) on 1..2 qubits in every format,
+    # then one in-place change of each kind, then the probes
+    kinds = ["L-", "L0.1", "L0.2", "L0.3", "O-:16/0", "O-:-24/8", "O0.1:16/0", "O0.3:16/0;-:8/0"]
+    for fmt in FORMATS:
+        for n in (1, 2):
+            for enc in kinds:
+                hows = MUTATIONS if ctx.tier != "quick" else rng.sample(MUTATIONS, 3)
+                for how in hows:
+                    sparse_value_history(ctx, rng, [["get", enc, n, fmt], ["mut", 0, how]], rng.randint(2, 3))
+    # random histories
+    for _ in range(ctx.n(80, 800)):
+        n = rng.choice([1, 1, 2, 3])
+        steps, nget = [], 0
+        for _ in range(rng.randint(2, 7)):
+            if nget and rng.random() < 0.45:
+                steps.append(["mut", rng.randrange(nget), rng.choice(MUTATIONS)])
+                continue
+            r = rng.random()
+            if r < 0.3:
+                e = ("L", ())
+            elif r < 0.45:
+                e = ("O", [((), rand_coef(rng, allow_zero=False))])
+            elif r < 0.65:
+                e = ("L", ((rng.randrange(n), rng.choice([1, 2, 3])),))
+            else:
+                e = rand_est(rng, n)
+            terms = est_terms(e)
+            narg = n if (not any(l for l, _ in terms) or rng.random() < 0.8) else None
+            steps.append(["get", enc_est(e), narg, rng.choice(FORMATS + ["csc", "csc", "csc"])])
+            nget += 1
+        sparse_value_history(ctx, rng, steps, rng.randint(2, 3))
+    ctx.traces += 1
+
+
 def k_sparse_formats(ctx: Ctx):
     rng = ctx.rng
     for _ in range(ctx.n(150, 1500)):
@@ -2417,7 +2632,7 @@ def witnesses(ctx: Ctx):
         if saved:
             sparse_reset(sp, saved)
     if bad3 is not None:
-        ctx.witness("sparse-history:result-depends-on-what-callers-did-with-earlier-results",
+        ctx.witness(K_VALUE,
                     "a matrix returned by get_sparse_matrix and then changed in place by its caller shows up in a later export", inp3, bad3)
     # W4: gates added to a compiled circuit after compilation (no Lean counterpart: found by the oracle comparison)
     inp4 = {"kind": "compiled-then-extended", "history": ["c = QuantumCircuit(2); c.add_H_gate(1)", "cc = compile_circuit(c)", "cc.add_X_gate(0)",
@@ -2602,6 +2817,7 @@ def run(ctx: Ctx, replay=None) -> int:
         k_rejections(ctx)
         k_convert_gate(ctx)
         k_sparse_formats(ctx)
+        k_sparse_value_hist(ctx)
         k_compiled_hist(ctx)
         k_wide(ctx)
     with ctx.timed("numeric"):
